@@ -50,6 +50,7 @@ type Case struct {
 	Query   string      `json:"query"`
 	Headers [][2]string `json:"headers"`
 	Body    *string     `json:"body"`
+	CL      *int64      `json:"cl"` // Content-Length as the server would report it (-1: unknown / chunked)
 	Mws     int         `json:"mws"`
 	NF      bool        `json:"nf"`   // install a custom NotFoundHandler
 	Spec    bool        `json:"spec"` // install SpecFileHandler
@@ -186,6 +187,11 @@ func buildRequest(c *Case) *http.Request {
 		Header: hdr,
 		Body:   body,
 		Host:   "example.com",
+	}
+	if c.CL != nil {
+		r.ContentLength = *c.CL
+	} else if c.Body != nil {
+		r.ContentLength = int64(len(*c.Body))
 	}
 	return r.WithContext(context.Background())
 }
